@@ -26,6 +26,7 @@ struct BrokerCfg {
     vt silent_from = -1;                    // >= 0: stops answering (and sending) from this virtual time on
     vt silent_until = -1;                   // ... until this time (-1: for ever)
     bool answer_ping = true;
+    std::string only_ack_topics;            // non-empty: only PUBLISHes whose topic contains one of the '|'-separated substrings are acknowledged
     uint16_t suback_granted_max = 2;
     int suback_fail_pct = 0;                // per-topic failing reason codes in SUBACK
     bool suback_all_fail = false;
